@@ -30,7 +30,7 @@ CLAIMED = {
          "Binding: GetByTime/OffsetByTime at every microsecond around the published times after every step, judged by TLC.",
          "TLA+ trace validation of time lookups at 1us steps + KlevSeg exhaustive", SEQ_NOTE),
  "C12": ("KlevSeg: DeleteOK on every enabled Delete(S) for all S up to MaxSets in every state (all structural outcomes). "
-         "Binding: every Delete/DeleteMulti result (set, content, size by source-file version, error) judged by TLC, followed by a full scan.",
+         "Binding: every Delete/DeleteMulti result (set, content, size by source-file version, error) judged by TLC, followed by a full scan; a third of the DeleteMulti calls use a backoff that gives up at its k-th call; one history in a hundred has ~3000 messages in one segment and delete sets of more than a thousand offsets.",
          "TLA+ trace validation of Delete results + KlevSeg exhaustive", SEQ_NOTE + CODEC_NOTE),
 }
 CLAIMED.update(json.load(open('/verif/claimed_extra.json')) if __import__('os').path.exists('/verif/claimed_extra.json') else {})
